@@ -7,6 +7,7 @@ compiled code of the repository is executed.  Anything the folder does not
 understand becomes an opaque `Sym` term, so a result is only ever used when it
 folded completely.
 """
+import re
 from collections import namedtuple
 from . import baseline as _baseline
 
@@ -1150,6 +1151,11 @@ class Evaluator:
         return Sym("continue", ())
 
     def ev_repeat(self, n, env):
+        # [e; N] with a literal length in the (monomorphic) type: N copies of the element
+        m = re.search(r";\s*(\d+)\]$", n.get("ty") or "")
+        if m and int(m.group(1)) <= 4096 and n.get("e") is not None:
+            v = self.ev(n["e"], env)
+            return T(tuple([v] * int(m.group(1))))
         return Sym("repeat", ())
 
     def ev_other(self, n, env):
